@@ -75,6 +75,8 @@ var targets = []string{
 	"RouterJSR311.selectRoutes",
 	"RouterJSR311.detectDispatcher",
 	"RouterJSR311.SelectRoute",
+	"RouterJSR311.extractParams",
+	"RouterJSR311.ExtractParameters",
 	"CrossOriginResourceSharing.isOriginAllowed",
 	"CrossOriginResourceSharing.isValidAccessControlRequestMethod",
 	"CrossOriginResourceSharing.isValidAccessControlRequestHeader",
@@ -1154,7 +1156,40 @@ func (t *tr) afterInner(ind int) {
 	}
 }
 
+// mapMergeLoop: `for k, v := range m2 { m1[k] = v }` over two map[string]string.  Go iterates a map in
+// random order, but this loop's result AS A MAP does not depend on the order (every key of m2 ends with
+// m2's value); it is translated as `mapMerge m1 m2` (m2's entries written into m1 in the order in which
+// m2 was written).  Every other loop over a map is rejected.
+func (t *tr) mapMergeLoop(ind int, x *ast.RangeStmt) bool {
+	if _, isMap := resolve(t.typeOf(x.X)).(*ast.MapType); !isMap {
+		return false
+	}
+	k, ok1 := x.Key.(*ast.Ident)
+	v, ok2 := x.Value.(*ast.Ident)
+	if !ok1 || !ok2 || len(x.Body.List) != 1 {
+		fail("loop over a map: %s", src(x.X))
+	}
+	as, ok := x.Body.List[0].(*ast.AssignStmt)
+	if !ok || as.Tok != token.ASSIGN || len(as.Lhs) != 1 || len(as.Rhs) != 1 || src(as.Rhs[0]) != v.Name {
+		fail("loop over a map: %s", src(x.X))
+	}
+	ix, ok := as.Lhs[0].(*ast.IndexExpr)
+	if !ok || src(ix.Index) != k.Name {
+		fail("loop over a map: %s", src(x.X))
+	}
+	m1, ok := ix.X.(*ast.Ident)
+	if !ok || !t.sc.has(m1.Name) || m1.Name == src(x.X) {
+		fail("loop over a map: %s", src(x.X))
+	}
+	m2, _ := t.expr(x.X)
+	t.line(ind, "%s := mapMerge %s %s", t.lname(m1.Name), t.lname(m1.Name), m2)
+	return true
+}
+
 func (t *tr) rangeStmtL(ind int, x *ast.RangeStmt, label string) {
+	if label == "" && t.mapMergeLoop(ind, x) {
+		return
+	}
 	defer t.afterInner(ind)
 	if x.Tok != token.DEFINE && (x.Key != nil || x.Value != nil) {
 		fail("range with assignment")
